@@ -25,6 +25,13 @@ fn check(c: &Case, obs: &mut Obs) {
     let p: Vec<(i64, i64)> = line.points().take(100_000).map(|q| (q.x as i64, q.y as i64)).collect();
     obs.outcome(&p);
     obs.mark_nontrivial();
+    if p.len() <= 20 {
+        iter_protocol("Line::points()", 20, || line.points(), obs);
+        for w in [2u32, 3] {
+            let st = PrimitiveStyleBuilder::new().stroke_color(BinaryColor::On).stroke_width(w).build();
+            iter_protocol("Styled<Line>::pixels()", 200, || line.into_styled(st).pixels(), obs);
+        }
+    }
     obs.class_if(len2 == 0, "zero-length");
     obs.class_if(dx == 0 && dy != 0, "vertical");
     obs.class_if(dy == 0 && dx != 0, "horizontal");
